@@ -152,6 +152,7 @@ void c01_all()
   c01_meta_typed<TupleDiagMatrix<CSR>>();
   c01_meta_typed<TupleDiagMatrix<B22, CSR>>();
   c01_meta_flat <TupleDiagMatrix<CSR, CSR>>();
+  c01_meta_flat <TupleDiagMatrix<CSR>>();
 
   // power containers (recursive case and the <.,1> specialisations)
   c01_meta_typed<PowerDiagMatrix<CSR, 2>>();
